@@ -347,7 +347,8 @@ def run_one(case, rec):
                 got_doc = '<not JSON: %r>' % rep.body[:100]
             if not typed_eq(got_doc, want_doc):
                 rec.violation('C18:%s:reply body differs from the dispatcher\'s response document%s' % (
-                    kind, ' (result with keys of several types)' if case['body'] == 'rich' else ''), c, expected=want_doc, observed=got_doc)
+                    kind, (' (result with keys of several types, %s endpoint)' % ('additional' if case.get('endpoint') and case.get('target') != 'main' else 'main')) if case['body'] == 'rich' else ''),
+                    c, expected=want_doc, observed=got_doc)
             elif rep.content_type != pjrpc.common.DEFAULT_CONTENT_TYPE:
                 rec.violation('C18:%s:reply content type is not the JSON type' % kind, c, expected=pjrpc.common.DEFAULT_CONTENT_TYPE, observed=rep.content_type)
             elif rep.status != want_status:
